@@ -132,10 +132,15 @@ StepBad(e, SA, RA, In, Ord, Cl) ==
       \* ---- C17: future / stream protocol
       c17 == \/ ("sterm" \in DOMAIN e /\ e.sterm # SetToSortedSeq({s \in S : SA[s] = "done"}))
              \/ ("rterm" \in DOMAIN e /\ e.rterm # SetToSortedSeq({r \in R : RA[r] = "done"}))
+             \* threaded runs report is_terminated() of the polled future only
+             \/ ("fterm" \in DOMAIN e /\ e.op = "poll_send" /\ e.fterm # (SA[e.s] = "done"))
+             \/ ("fterm" \in DOMAIN e /\ e.op = "poll_recv" /\ e.fterm # (RA[e.r] = "done"))
              \/ (e.op \in {"poll_send_done", "poll_recv_done"} /\ res # "panic")
              \/ (e.op = "stream_next" /\ oRA[XR] = "done" /\ res # "none")
       c18 == "alloc" \in DOMAIN e /\ e.alloc # 0
-  IN (IF c01 THEN {"C01"} ELSE {}) \cup (IF c08 THEN {"C08"} ELSE {}) \cup (IF c09 THEN {"C09"} ELSE {})
+      \* a threaded run in which every task ended up parked: a lost wake-up
+      cdl == e.op = "abort" /\ "res" \in DOMAIN e /\ e.res = "deadlock"
+  IN (IF cdl THEN {"C10"} ELSE {}) \cup (IF c01 THEN {"C01"} ELSE {}) \cup (IF c08 THEN {"C08"} ELSE {}) \cup (IF c09 THEN {"C09"} ELSE {})
      \cup (IF c11 THEN {"C11"} ELSE {}) \cup (IF c17 THEN {"C17"} ELSE {}) \cup (IF c18 THEN {"C18"} ELSE {})
 
 ObsStep(e) ==
